@@ -29,6 +29,8 @@ def share : ShareFacts :=
     lookup2RedeclInPlace := true,       -- … `if n.anc.kind != defineXStmt || n.redeclared || n.ident == "_" { return genValue(n) }`
     appendArgsAreSlots := false,        -- since b312e89 (was F04-6): operands copied into a fresh slice, then reflect.AppendSlice
     derefNilPanics := true,             -- since 93fb945 (was F04-10): `if !r.IsValid() { _ = *nilPtr }`
+    callResultsFresh := true,           -- since 1b5ab85 (was F04-20 / C01 F01): `for i := range rvalues { nf.data[i] = reflect.New(def.types[i]).Elem() }`
+    returnTwoPhase := true,             -- since 8544122 (was F04-19): _return copies every operand into `tmp` before `f.data[i].Set(v)`
     recvAssignsValue := true,           -- since 212dc2e (was F08-7): no `src.action == aRecv` arm, the unaryExpr shortcut excludes aRecv
     assertDefineFresh := true,          -- since daee744 (was F04-14): `value0 = genValueDefine(n.anc.child[0])`, same for the status
     assertZeroOnFail := true }          -- … `if withResult && !*ok { v := value0(f); v.Set(reflect.Zero(v.Type())) }`
@@ -51,8 +53,9 @@ def sourceHashes : List (String × String) :=
    ("genValueDefine", "7c0f83aa46790e55"),
    ("typeAssert", "90e50bd038426751"),
    ("recv", "62c5f304a4403670"),
+   ("_return", "6895724d699b988d"),
    ("doComposite", "cc9a326983ac6414"),
-   ("_range", "91f984a91592c6a4"),
+   ("_range", "5c9ff73a022429ee"),
    ("loopVarKey", "850d1ef64799110f"),
    ("loopVarVal", "fcbafb1e09580702"),
    ("_append", "162ec1ccda4737c3"),
@@ -61,11 +64,11 @@ def sourceHashes : List (String × String) :=
    ("_delete", "3814292d45cb5cab"),
    ("slice", "943a0297b4418338"),
    ("slice0", "e3dfcf7fb18203eb"),
-   ("call: exec of an ordinary call", "8fac3922f6ab661a"),
+   ("call: exec of an ordinary call", "983d7880483ac6f4"),
    ("genValueRangeArray", "e367de7280104450"),
    ("genValueArray", "7423f6a50d5d826f"),
    ("genDestValue", "6d332c89aa45b5ab"),
-   ("cfg.go: case assignStmt, defineStmt", "db208f67c4e0238c"),
+   ("cfg.go: case assignStmt, defineStmt", "50c4796ffc6e0819"),
    ("cfg.go: rangeStmt, case ptrT", "be6b2770d36e6ffe"),
    ("typecheck.go: addressExpr", "a310c42048108f3c")]
 
